@@ -3,6 +3,7 @@ package main
 import (
 	"fmt"
 	"sort"
+	"strings"
 
 	"verif/internal/sber"
 )
@@ -38,13 +39,52 @@ func ctlTree(kind string, crit int) *sber.Node {
 		n.Children = append(n.Children, sber.Str("86400"))
 	case "generic":
 		n.Children = append(n.Children, sber.Str("generic-value"))
+	default:
+		// "oid:<dotted oid>/<shape>": a control carrying an OID that LDAP libraries commonly special-case
+		if strings.HasPrefix(kind, "oid:") {
+			parts := strings.SplitN(strings.TrimPrefix(kind, "oid:"), "/", 2)
+			n.Children[0] = sber.Str(parts[0])
+			switch parts[1] {
+			case "novalue":
+			case "string":
+				n.Children = append(n.Children, sber.Str("v"))
+			case "seq":
+				n.Children = append(n.Children, sber.Wrap(sber.Seq(sber.Int(1), sber.Int(2), sber.Octet([]byte("c")))))
+			case "seq3str":
+				n.Children = append(n.Children, sber.Wrap(sber.Seq(sber.Str("a"), sber.Str("b"), sber.Str("c"))))
+			}
+		}
 	}
 	return n
 }
 
+// wellKnownControlOIDs are control OIDs that LDAP libraries (go-ldap among them) treat specially; a decoder that
+// delegates to such a library inherits its assumptions about their values.
+var wellKnownControlOIDs = []string{
+	"1.2.840.113556.1.4.841",    // DirSync
+	"1.2.840.113556.1.4.473",    // server side sorting request
+	"1.2.840.113556.1.4.474",    // server side sorting response
+	"1.2.840.113556.1.4.805",    // subtree delete
+	"1.3.6.1.4.1.4203.1.9.1.1",  // sync request
+	"1.3.6.1.4.1.4203.1.9.1.2",  // sync state
+	"1.3.6.1.4.1.4203.1.9.1.3",  // sync done
+	"1.3.6.1.4.1.4203.1.9.1.4",  // sync info
+	"1.3.6.1.4.1.4203.1.11.3",   // who am i
+	"2.16.840.1.113730.3.4.9",   // virtual list view request
+	"2.16.840.1.113730.3.4.18",  // proxied authorization
+	"1.3.6.1.1.12",              // assertion
+	"1.3.6.1.1.13.1",            // pre-read
+	"1.3.6.1.1.13.2",            // post-read
+	"1.2.840.113556.1.4.1413",   // permissive modify
+	"1.2.840.113556.1.4.1339",   // domain scope
+	"1.2.840.113556.1.4.801",    // SD flags
+	"1.3.6.1.4.1.42.2.27.8.5.1", // behera (again, as a generic shape)
+}
+
 type canonical struct {
-	Name string
-	Tree *sber.Node
+	Name  string
+	Tree  *sber.Node
+	Scope []int // when set, only nodes under this path are mutated (the rest of the tree is covered by other canonicals)
 }
 
 // canonicals returns every operation x every control variant.
@@ -72,6 +112,15 @@ func canonicals() []canonical {
 	opNames := []string{"bind", "search", "modify", "add", "delete", "extended", "unbind"}
 	ctlVariants := []string{"none", "paging", "behera", "behera-grace", "vchu-must", "vchu-warn", "dsait", "ms-notif", "ms-del", "ms-ttl", "generic", "multi"}
 	var out []canonical
+	// well-known control OIDs in four value shapes, on the two operations clients attach controls to most
+	for _, on := range []string{"search"} {
+		for oi, oid := range wellKnownControlOIDs {
+			for si, shape := range []string{"novalue", "string", "seq", "seq3str"} {
+				msg := sber.Seq(sber.Int(int64(40+oi)), ops[on](), sber.Cons(sber.Context, 0, ctlTree("oid:"+oid+"/"+shape, (oi+si)%3)))
+				out = append(out, canonical{Name: on + "+oid:" + oid + "/" + shape, Tree: msg, Scope: []int{2}})
+			}
+		}
+	}
 	for _, on := range opNames {
 		for ci, cv := range ctlVariants {
 			msg := sber.Seq(sber.Int(int64(7+ci)), ops[on]())
